@@ -256,3 +256,32 @@ Example C05_sort_example :
   Bits.cnt_sort [(5, 2); (9, 7); (3, 2); (1, 7)]%N = [(9, 7); (1, 7); (5, 2); (3, 2)]%N /\
   Bits.cnt_sort [(3, 2); (1, 7); (5, 2); (9, 7)]%N = [(9, 7); (1, 7); (5, 2); (3, 2)]%N.
 Proof. split; vm_compute; reflexivity. Qed.
+
+From SlimGen Require Gen_Consts.
+From Coq Require Import String.
+
+(* ---- the protobuf schema the wire model was written for ----------------------------------
+   Gen_Consts.g_proto_fields is REGENERATED on every run from the struct tags of the generated
+   *.pb.go files in /repo (message, field, number, Go type, wire kind / repeated / packed):
+   a renumbered, retyped, added or removed field of trie.Slim / Bitmap / VLenArray breaks this obligation. *)
+Example C05_schema :
+  filter (fun r => String.prefix "trie."%string (fst (fst (fst r)))) SlimGen.Gen_Consts.g_proto_fields =
+  [("trie.Bitmap"%string, "Words"%string, 20, "[]uint64 varint,20,rep,packed,proto3"%string);
+   ("trie.Bitmap"%string, "RankIndex"%string, 30, "[]int32 varint,30,rep,packed,proto3"%string);
+   ("trie.Bitmap"%string, "SelectIndex"%string, 40, "[]int32 varint,40,rep,packed,proto3"%string);
+   ("trie.VLenArray"%string, "N"%string, 10, "int32 varint,10,opt,proto3"%string);
+   ("trie.VLenArray"%string, "EltCnt"%string, 11, "int32 varint,11,opt,proto3"%string);
+   ("trie.VLenArray"%string, "PresenceBM"%string, 61, "*Bitmap bytes,61,opt,proto3"%string);
+   ("trie.VLenArray"%string, "PositionBM"%string, 20, "*Bitmap bytes,20,opt,proto3"%string);
+   ("trie.VLenArray"%string, "FixedSize"%string, 23, "int32 varint,23,opt,proto3"%string);
+   ("trie.VLenArray"%string, "Bytes"%string, 30, "[]byte bytes,30,opt,proto3"%string);
+   ("trie.Slim"%string, "BigInnerCnt"%string, 11, "int32 varint,11,opt,proto3"%string);
+   ("trie.Slim"%string, "ShortSize"%string, 14, "int32 varint,14,opt,proto3"%string);
+   ("trie.Slim"%string, "NodeTypeBM"%string, 20, "*Bitmap bytes,20,opt,proto3"%string);
+   ("trie.Slim"%string, "Inners"%string, 30, "*Bitmap bytes,30,opt,proto3"%string);
+   ("trie.Slim"%string, "ShortBM"%string, 31, "*Bitmap bytes,31,opt,proto3"%string);
+   ("trie.Slim"%string, "ShortTable"%string, 32, "[]uint32 varint,32,rep,packed,proto3"%string);
+   ("trie.Slim"%string, "InnerPrefixes"%string, 38, "*VLenArray bytes,38,opt,proto3"%string);
+   ("trie.Slim"%string, "LeafPrefixes"%string, 58, "*VLenArray bytes,58,opt,proto3"%string);
+   ("trie.Slim"%string, "Leaves"%string, 60, "*VLenArray bytes,60,opt,proto3"%string)]%N.
+Proof. vm_compute. reflexivity. Qed.
